@@ -307,6 +307,19 @@ func vcaRun(t *testing.T, idx int, s vcaSched, emit func(map[string]any)) {
 		case "Request":
 			known(st.Cookies)
 			request(st.Cookies)
+		case "Poll":
+			// the unprotected session-status endpoint the UI polls; it must not change what protected endpoints answer
+			known(st.Cookies)
+			cookies := st.Cookies
+			if cookies == nil {
+				cookies = []string{}
+			}
+			rec := do("GET", "/ui/api/auth/session", "a1", cookies, "", false)
+			var resp struct {
+				Authenticated bool `json:"authenticated"`
+			}
+			_ = json.Unmarshal(rec.Body.Bytes(), &resp)
+			emit(map[string]any{"ev": "Poll", "cookies": cookies, "status": rec.Code, "authenticated": resp.Authenticated, "now": nowS(), "st": project()})
 		case "Tick":
 			time.Sleep(time.Duration(st.D) * time.Second)
 			emit(map[string]any{"ev": "Tick", "d": st.D, "now": nowS(), "st": project()})
